@@ -663,7 +663,7 @@ theorem ResG.ev_below (hinv : InvL ext lab pos s) (hul : u < l) (hl : l < lab.le
         · intro h; rw [h, hpb] at h3; omega
     exact .inner hn' (iht (hchild t (Or.inl rfl))) (ihe (hchild e (Or.inr rfl)))
 
-theorem ResG.mkR_ev (hres : ResG ext pos s u l a b s' up lo) {x y c : Edge} {vx vy : Bool}
+theorem ResG.mkR_ev (_hres : ResG ext pos s u l a b s' up lo) {x y c : Edge} {vx vy : Bool}
     (hm : MkR a s'.h.sh lo [] x y c) (hx : Ev s'.h.sh σ x vx) (hy : Ev s'.h.sh σ y vy) :
     Ev s'.h.sh σ c (if σ a then vx else vy) := by
   rcases hm with ⟨h1, h2⟩ | ⟨_, j, _, h2, h3⟩
@@ -798,7 +798,7 @@ theorem levelSwapG_spec (hal : AllocOK al) (hord : OrderOK ord) (hr : RInv ext f
     by_cases h1 : p = l
     · simp only [h1, if_true]; exact hr.l2v_eq u hu
     · by_cases h2 : p = u
-      · simp only [h1, h2, if_false, if_true]
+      · simp only [h2, if_true]
         have : ¬ (u = l) := by omega
         simp only [this, if_false]; exact hr.l2v_eq l hl
       · simp only [h1, h2, if_false]; exact hr.l2v_eq p hp
